@@ -72,7 +72,7 @@ class SpecCtx:
         a = self.__dict__.get("args", {})
         if name in a:
             v = a[name]
-            if isinstance(v, (VRef, VInt, VBool, VStr, VCls, VCallback, VSeq)):
+            if isinstance(v, (VRef, VInt, VBool, VStr, VCls, VCallback, VSeq, VAttrs)):
                 return v.term
             return v
         raise AttributeError(name)
@@ -133,6 +133,10 @@ class OutcomeBuilder:
     def fresh(self, cname_or_cls, name="new"):
         r = self.ctx.fresh(cname_or_cls, name)
         self.o.fresh.append((r, cname_or_cls))
+        if cname_or_cls != "<container>":
+            # a new instance starts without dynamic attributes and with an empty neighbor memo
+            self.o.post.write_where("dyn_has", lambda a, r=r: (T.eq(a[0], r), z3.BoolVal(False)))
+            self.o.post.write_where("memo_has", lambda a, r=r: (T.eq(a[0], r), z3.BoolVal(False)))
         return r
 
     def out(self, seq):
@@ -180,6 +184,7 @@ class LoopInv:
     define: dict = field(default_factory=dict)      # locals defined by the invariant: name -> V
     variant: z3.ArithRef | None = None
     out: z3.ExprRef | None = None                   # generators: yielded sequence so far
+    defs: list = field(default_factory=list)        # definitional unfoldings of spec functions (assumed, never checked)
 
 
 class Registry:
